@@ -17,7 +17,7 @@ Conventions (BUILDING.md)
 * `Env.c.debug = true` models a build with `debug-assertions` and `overflow-checks` (harness profile `dbg`):
   every `debug_assert!` on the path, and the `usize` subtractions that are not `wrapping_*`, yield `Err.panic`.
 * `unsafe { iter.step_unchecked() }`, `Bytes::from_parts`, `set_cursor`, `step_by_unchecked`: the safety
-  precondition is tested and `Err.fault` returned when it fails (proved unreachable in `Props/C04Format.lean`).
+  precondition is tested and `Err.fault "unchecked"` returned when it fails (proved unreachable in `Props/C04Format.lean`).
 * loops over a skip iterator carry fuel (`buffer length + 1`, each `next()` moves the cursor by at least one byte);
   running out of fuel is `Err.fault "fuel"`.
 * the result keeps the index also for the complete parser (`Ok(value)` drops it): the renderer and `complete` project.
@@ -28,6 +28,13 @@ open LexVerif.Model.ParseInt (charToDigit overflowDigits toInt mulAddWrapping mu
 
 /-- what the entry point returns: `Ok((value, index))`, or `Error::Kind(index)` / panic / fault -/
 abbrev Res := Except Err (Int × Nat)
+
+/-- decidable equality of results (for `decide`d witnesses); named, so that it cannot clash with a derived instance -/
+instance exceptDecEq {ε α : Type} [DecidableEq ε] [DecidableEq α] : DecidableEq (Except ε α)
+  | .ok a, .ok b => if h : a = b then isTrue (by rw [h]) else isFalse (fun h' => by cases h'; exact h rfl)
+  | .error a, .error b => if h : a = b then isTrue (by rw [h]) else isFalse (fun h' => by cases h'; exact h rfl)
+  | .ok _, .error _ => isFalse (fun h => by cases h)
+  | .error _, .ok _ => isFalse (fun h => by cases h)
 
 /-- statement sequence with early `return`: `.error r` = the function returned `r` -/
 abbrev Flow (α : Type) := Except Res α
@@ -77,7 +84,7 @@ def invalidDigit (e : Env) (value index count : Nat) : Res :=
 
 /-- `unsafe { iter.step_unchecked() }` on the integer iterator -/
 def stepChecked (c : Cfg) (b : Bytes) : Except Err Bytes :=
-  if b.index ≥ b.slc.length then .error (.fault "step_unchecked: empty buffer") else iterStep c .integer b
+  if b.index ≥ b.slc.length then .error (.fault "unchecked") else iterStep c .integer b
 
 /-- outcome of `fmt_invalid_digit!`: `break` out of the digit loop, or `return` -/
 inductive Inv where
@@ -154,7 +161,7 @@ def multiLoop (e : Env) (sub : Bool) (b : Bytes) (value : Nat) : Flow (Bytes × 
     else if e.c.debug && decide (b.index > b.slc.length) then .error (.error (.panic "as_slice: cursor > len"))
     else
       match (if wide then loop8 e.t e.radix sub b.asSlice value b.index else loop4 e.t e.radix sub b.asSlice value b.index) with
-      | .error _ => .error (.error (.fault "step_by_unchecked"))
+      | .error _ => .error (.error (.fault "unchecked"))
       | .ok (_, value, cursor) => .ok ({ b with index := cursor }, value)
   else .ok (b, value)
 
@@ -172,7 +179,7 @@ def parseDigitsChecked (e : Env) (sub : Bool) (startIndex : Nat) (b : Bytes) (va
     if e.contig then
       -- take_n: `end = slc.len().min(n + cursor)`, `Bytes::from_parts(&slc[..end], cursor)`, `set_cursor(end)`
       let end_ := min b.slc.length (od + b.index)
-      if end_ < b.index then .error (.error (.fault "take_n: from_parts index > len"))
+      if end_ < b.index then .error (.error (.fault "unchecked"))
       else
         let small : Bytes := { slc := b.slc.take end_, index := b.index }
         match parseDigitsUnchecked e sub false startIndex small value with
@@ -187,7 +194,7 @@ def parseDigitsChecked (e : Env) (sub : Bool) (startIndex : Nat) (b : Bytes) (va
 `required_mantissa_sign`, `InvalidPositiveSign`, `MissingSign`) -/
 def parseSign (e : Env) (b : Bytes) : Except Err (Bool × Bytes) :=
   let stepB (b : Bytes) : Except Err Bytes :=
-    if b.index ≥ b.slc.length then .error (.fault "step_unchecked: empty buffer") else b.step e.c
+    if b.index ≥ b.slc.length then .error (.fault "unchecked") else b.step e.c
   match b.first with
   | some 43 =>
     if !e.c.noPositiveMantissaSign then
@@ -241,6 +248,28 @@ def prefixZeros (e : Env) (b : Bytes) (startIndex : Nat) : Flow (Bytes × Nat) :
         else .ok (b, startIndex)
   else .ok (b, startIndex)
 
+/-- the part of `algorithm!` after the prefix / leading-zero block: `overflow_digits`, `cannot_overflow`, the four
+digit-loop branches and the final `$into_ok!` -/
+def digitsPhase (e : Env) (isNegative : Bool) (b : Bytes) (startIndex : Nat) : Flow Res :=
+  let od := overflowDigits e.t e.radix
+  if e.c.debug && decide (b.index > b.slc.length) then .error (.error (.panic "as_slice: cursor > len"))
+  else
+    let cannotOverflow := decide (b.asSlice.length ≤ od)
+    -- if cannot_overflow && is_negative { … }
+    let st1 : Flow (Bytes × Nat) :=
+      if cannotOverflow && isNegative then parseDigitsUnchecked e true true startIndex b 0 else .ok (b, 0)
+    match st1 with
+    | .error r => .error r
+    | .ok (b, value) =>
+      -- (no `else`) if cannot_overflow { … } else if is_negative { … } else { … }
+      let st2 : Flow (Bytes × Nat) :=
+        if cannotOverflow then parseDigitsUnchecked e false true startIndex b value
+        else if isNegative then parseDigitsChecked e true startIndex b value od
+        else parseDigitsChecked e false startIndex b value od
+      match st2 with
+      | .error r => .error r
+      | .ok (b, value) => .ok (intoOk e value b.bufferLength (b.iterCount e.c .integer))
+
 /-- `algorithm!` with the `format` feature -/
 def algorithm (e : Env) (s : List Nat) : Flow Res :=
   match parseSign e (Bytes.new s) with
@@ -251,25 +280,7 @@ def algorithm (e : Env) (s : List Nat) : Flow Res :=
     else
       match prefixZeros e b b.cursor with
       | .error r => .error r
-      | .ok (b, startIndex) =>
-        let od := overflowDigits e.t e.radix
-        if e.c.debug && decide (b.index > b.slc.length) then .error (.error (.panic "as_slice: cursor > len"))
-        else
-        let cannotOverflow := decide (b.asSlice.length ≤ od)
-        -- if cannot_overflow && is_negative { … }
-        let st1 : Flow (Bytes × Nat) :=
-          if cannotOverflow && isNegative then parseDigitsUnchecked e true true startIndex b 0 else .ok (b, 0)
-        match st1 with
-        | .error r => .error r
-        | .ok (b, value) =>
-          -- (no `else`) if cannot_overflow { … } else if is_negative { … } else { … }
-          let st2 : Flow (Bytes × Nat) :=
-            if cannotOverflow then parseDigitsUnchecked e false true startIndex b value
-            else if isNegative then parseDigitsChecked e true startIndex b value od
-            else parseDigitsChecked e false startIndex b value od
-          match st2 with
-          | .error r => .error r
-          | .ok (b, value) => .ok (intoOk e value b.bufferLength (b.iterCount e.c .integer))
+      | .ok (b, startIndex) => digitsPhase e isNegative b startIndex
 
 /-- `algorithm_complete` / `algorithm_partial` -/
 def parseIntFormat (e : Env) (s : List Nat) : Res :=
